@@ -272,6 +272,7 @@ class Mir:
         self.fns = []
         self.consts = {}
         self.structs = {}
+        self.text = text
         lines = text.split("\n")
         i = 0
         while i < len(lines):
